@@ -309,6 +309,11 @@ def h_plain_parity(ctx, what):
                                ('imag', lambda: algopy.imag(a + 2j * a), lambda: np.imag(a + 2j * a)),
                                ('conjugate', lambda: algopy.conjugate(a + 2j * a), lambda: np.conjugate(a + 2j * a)),
                                ('fft', lambda: algopy.fft.fft(b), lambda: np.fft.fft(b)),
+                               ('fft(axis=0)', lambda: algopy.fft.fft(r, axis=0), lambda: np.fft.fft(r, axis=0)),
+                               ('fft(n=4, axis=0)', lambda: algopy.fft.fft(r, n=4, axis=0), lambda: np.fft.fft(r, n=4, axis=0)),
+                               ('ifft(axis=0)', lambda: algopy.fft.ifft(r, axis=0), lambda: np.fft.ifft(r, axis=0)),
+                               ('ifft(n=2, axis=0)', lambda: algopy.fft.ifft(r, n=2, axis=0), lambda: np.fft.ifft(r, n=2, axis=0)),
+                               ('ifft(n=4)', lambda: algopy.fft.ifft(r, n=4), lambda: np.fft.ifft(r, n=4)),
                                ('ifft', lambda: algopy.fft.ifft(b), lambda: np.fft.ifft(b)),
                                ('symvec', lambda: algopy.symvec(a), lambda: np.array([4.0, 1.0, 0.5, 3.0, -0.25, 2.0])),
                                ('vecsym', lambda: algopy.vecsym(np.array([4.0, 1.0, 0.5, 3.0, -0.25, 2.0])), lambda: a)):
